@@ -19,7 +19,8 @@ Lemma time_ratio_spec u1 d1 u2 d2 :
   exists r, time_ratio_gen u1 d1 u2 d2 = Ok r /\ r == (d1 / d2) * (unit_days u1 / unit_days u2).
 Proof.
   intros H1 H2 Hd.
-  unfold time_ratio_gen.
+  assert (G : Qeq_bool d2 0 = false) by (destruct (Qeq_bool d2 0) eqn:B; [apply Qeq_bool_eq in B; contradiction|reflexivity]).
+  unfold time_ratio_gen. rewrite ?G.
   destruct (Qeqb d1 d2) eqn:E.
   - apply Qeqb_true in E.
     destruct u1, u2; try discriminate; cbn; eexists; (split; [reflexivity|]);
@@ -81,12 +82,22 @@ Qed.
 
 (* mixing unitless / uninitialised units with real units is rejected *)
 Lemma ratio_rejects_unitless u1 d1 u2 d2 :
-  u1 <> u2 -> (u1 = UUnitless \/ u2 = UUnitless \/ u1 = UNone \/ u2 = UNone) ->
+  u1 <> u2 -> ~ d2 == 0 -> (u1 = UUnitless \/ u2 = UUnitless \/ u1 = UNone \/ u2 = UNone) ->
   time_ratio_gen u1 d1 u2 d2 = Err EValue.
 Proof.
-  intros Hne H. unfold time_ratio_gen.
+  intros Hne Hd H. unfold time_ratio_gen.
+  assert (G : Qeq_bool d2 0 = false) by (destruct (Qeq_bool d2 0) eqn:B; [apply Qeq_bool_eq in B; contradiction|reflexivity]).
+  rewrite ?G.
   destruct (Qeqb d1 d2); destruct u1, u2; cbn; try reflexivity; try congruence;
     destruct H as [H|[H|[H|H]]]; discriminate.
+Qed.
+
+(* a zero step length in the denominator is rejected (Python: ZeroDivisionError), before any unit check *)
+Lemma ratio_zero_dt u1 d1 u2 : ~ d1 == 0 -> time_ratio_gen u1 d1 u2 0 = Err EZeroDiv.
+Proof.
+  intros H. unfold time_ratio_gen.
+  assert (E : Qeqb d1 0 = false) by (unfold Qeqb; destruct (Qeq_bool d1 0) eqn:B; [apply Qeq_bool_eq in B; contradiction|reflexivity]).
+  rewrite E. reflexivity.
 Qed.
 
 (* ---------------------------------------------------------------- dur / rate *)
@@ -120,7 +131,8 @@ Lemma rate_physical p y : tp_ok p -> tp_kind_of p = KRate -> tp_values p = Ok y 
   y * (tp_self_dt p * unit_days (tp_unit p)) == tp_v p * (tp_parent_dt p * unit_days (tp_parent_unit p)).
 Proof.
   intros Hok Hk E. destruct (tp_factor_spec p Hok) as [f [Ef [Hf Hpos]]].
-  unfold tp_values in E. rewrite Ef in E. cbn in E. rewrite Hk in E. cbn in E. injection E as <-.
+  assert (G : Qeq_bool f 0 = false) by (destruct (Qeq_bool f 0) eqn:B; [apply Qeq_bool_eq in B; rewrite B in Hpos; lra|reflexivity]).
+  unfold tp_values in E. rewrite Ef in E. cbn [bind] in E. rewrite Hk in E. unfold kind_values, rate_values_gen in E. rewrite G in E. injection E as <-.
   destruct Hok as (H1 & H2 & H3 & H4).
   pose proof (unit_days_pos _ H1). pose proof (unit_days_pos _ H2).
   rewrite Hf. field. repeat split; intro Z; rewrite Z in *; lra.
@@ -128,8 +140,9 @@ Qed.
 
 Lemma tp_values_total p : tp_ok p -> exists y, tp_values p = Ok y.
 Proof.
-  intros Hok. destruct (tp_factor_spec p Hok) as [f [Ef _]].
-  unfold tp_values. rewrite Ef. cbn. destruct (tp_kind_of p); cbn; eexists; reflexivity.
+  intros Hok. destruct (tp_factor_spec p Hok) as [f [Ef [_ Hpos]]].
+  assert (G : Qeq_bool f 0 = false) by (destruct (Qeq_bool f 0) eqn:B; [apply Qeq_bool_eq in B; rewrite B in Hpos; lra|reflexivity]).
+  unfold tp_values. rewrite Ef. cbn [bind]. destruct (tp_kind_of p); unfold kind_values, rate_values_gen, dur_values_gen; rewrite ?G; eexists; reflexivity.
 Qed.
 
 (* arithmetic: scaling v scales the converted value *)
@@ -137,8 +150,9 @@ Lemma tp_mul_values p k y : tp_ok p -> tp_values p = Ok y ->
   exists y', tp_values (tp_mul p k) = Ok y' /\ y' == y * k.
 Proof.
   intros Hok E. destruct (tp_factor_spec p Hok) as [f [Ef [Hf Hpos]]].
-  unfold tp_values in *. unfold tp_factor in *. cbn. rewrite Ef in *. cbn in *.
-  destruct (tp_kind_of p); cbn in *; injection E as <-; eexists; split; try reflexivity; field.
+  assert (G : Qeq_bool f 0 = false) by (destruct (Qeq_bool f 0) eqn:B; [apply Qeq_bool_eq in B; rewrite B in Hpos; lra|reflexivity]).
+  unfold tp_values in *. unfold tp_factor in *. unfold tp_mul, tp_neg, tp_set_v. cbn [tp_unit tp_self_dt tp_parent_unit tp_parent_dt tp_kind_of tp_v]. rewrite Ef in *. cbn [bind] in *.
+  destruct (tp_kind_of p); unfold kind_values, rate_values_gen, dur_values_gen in *; rewrite ?G in *; injection E as <-; eexists; (split; [reflexivity|]); field.
   intro Z; rewrite Z in Hpos; lra.
 Qed.
 
@@ -146,8 +160,9 @@ Lemma tp_neg_values p y : tp_ok p -> tp_values p = Ok y ->
   exists y', tp_values (tp_neg p) = Ok y' /\ y' == - y.
 Proof.
   intros Hok E. destruct (tp_factor_spec p Hok) as [f [Ef [Hf Hpos]]].
-  unfold tp_values in *. unfold tp_factor in *. cbn. rewrite Ef in *. cbn in *.
-  destruct (tp_kind_of p); cbn in *; injection E as <-; eexists; split; try reflexivity; field.
+  assert (G : Qeq_bool f 0 = false) by (destruct (Qeq_bool f 0) eqn:B; [apply Qeq_bool_eq in B; rewrite B in Hpos; lra|reflexivity]).
+  unfold tp_values in *. unfold tp_factor in *. unfold tp_mul, tp_neg, tp_set_v. cbn [tp_unit tp_self_dt tp_parent_unit tp_parent_dt tp_kind_of tp_v]. rewrite Ef in *. cbn [bind] in *.
+  destruct (tp_kind_of p); unfold kind_values, rate_values_gen, dur_values_gen in *; rewrite ?G in *; injection E as <-; eexists; (split; [reflexivity|]); field.
   intro Z; rewrite Z in Hpos; lra.
 Qed.
 
@@ -165,7 +180,8 @@ Proof.
   destruct (time_ratio_spec _ (tp_self_dt p) _ _ H1 H2 Hn) as [r [Er Hr]].
   rewrite Er; cbn.
   assert (Hp : 0 < r) by exact (ratio_pos _ _ _ _ _ H1 H2 H3 H4 Er).
-  destruct (tp_kind_of p) eqn:K; cbn; eexists; exists r; repeat split; eauto; cbn; reflexivity.
+  assert (G : Qeq_bool r 0 = false) by (destruct (Qeq_bool r 0) eqn:B; [apply Qeq_bool_eq in B; rewrite B in Hp; lra|reflexivity]).
+  destruct (tp_kind_of p) eqn:K; unfold kind_values, rate_values_gen, dur_values_gen; rewrite ?G; cbn; eexists; exists r; repeat split; eauto; cbn; reflexivity.
 Qed.
 
 (* converting to another (unit, dt) and then on to a third equals converting directly *)
